@@ -431,8 +431,16 @@ class DCM(np.ndarray):
         # Create the ndarray instance of type DCM. This will call the standard
         # ndarray constructor, but return an object of type DCM.
         obj = super(DCM, subtype).__new__(subtype, array.shape, float, array)
-        obj.A = array
         return obj
+
+    @property
+    def A(self) -> np.ndarray:
+        """
+        The matrix as a plain numpy array sharing this object's data. Being a
+        property, it also exists on the DCM objects created by array
+        operations (view, copy, transpose, @), which skip ``__new__``.
+        """
+        return self.view(np.ndarray)
 
     @property
     def I(self) -> np.ndarray:
